@@ -287,6 +287,42 @@ func runC18(c *eng.Ctx) {
 		}
 	})
 
+	// ---- 4c. "no assignment yet" is decided by the repository's answer, not by any failing read ------------------------------------
+	c.Rule("ERRFLOW", smgrT+".GetShardAssign{errors are the callees' errors}", func() {
+		errorsOnlyFrom(c, smgrT+".GetShardAssign", eng.Any(invokeOn(".masterRepo", "Get"), eng.AnyCallTo("github.com/lindb/common/pkg/encoding.JSONUnmarshal")), "masterRepo.Get / JSONUnmarshal")
+	})
+
+	// ---- 4d. the shard lists handed to the handlers own their memory ----------------------------------------------------------------
+	c.Rule("PROV", "models.StorageState{per-database lists do not share a backing array}", func() {
+		for _, fk := range []string{"models.StorageState.LeadersOnNode", "models.StorageState.ReplicasOnNode"} {
+			f := c.Fn(fk)
+			n := 0
+			for _, b := range eng.BlocksT(f) {
+				for _, in := range b.Instrs {
+					mu, ok := in.(*ssa.MapUpdate)
+					if !ok || !strings.Contains(mu.Value.Type().String(), "ShardID") {
+						continue
+					}
+					n++
+					// the stored slice must not be (an append chain over) a re-slice x[:0] of a slice carried from an earlier iteration
+					reused := ""
+					eng.WalkExpr(mu.Value, func(x ssa.Value) bool {
+						if sl, ok := x.(*ssa.Slice); ok && sl.High != nil {
+							if k, isC := eng.ConstInt(sl.High); isC && k == 0 && sl.Max == nil {
+								reused = p.Desc(sl)
+							}
+						}
+						return true
+					})
+					c.Check(reused == "", fmt.Sprintf("%s:stored-list-owns-its-memory[%d]", fk, n), mu, f,
+						"a shard list stored under one database is not built in a scratch slice that is re-sliced to length 0 and filled again for the next database: the lists would share one backing array and a later database would overwrite the shard ids of an earlier one",
+						"the stored value is built over "+reused)
+				}
+			}
+			c.Check(n > 0, fk+":stores-lists", nil, f, fk+" stores a shard list per database", "")
+		}
+	})
+
 	// ---- 5. assignment preconditions -------------------------------------------------------------------------------------------
 	c.Rule("GUARD", "coordinator/master.ShardAssignment{preconditions}", func() {
 		for _, fn := range []string{"coordinator/master.ShardAssignment", "coordinator/master.ModifyShardAssignment"} {
